@@ -10,6 +10,17 @@ Theorem C02_patch_canonical :
   forall ops1 ops2, (forall k, last_write ops1 k = last_write ops2 k) -> changes ops1 = changes ops2.
 Proof. exact patch_canonical. Qed.
 
+(* Conversely the patch pins down the final content (nothing is lost, nothing else is in it): two write sequences commit to the
+   same patch EXACTLY when every key ends with the same value — written, deleted or untouched ... *)
+Theorem C02_patch_determines_final_content :
+  forall ops1 ops2, changes ops1 = changes ops2 <-> (forall k, last_write ops1 k = last_write ops2 k).
+Proof. exact patch_canonical_iff. Qed.
+
+(* ... a lookup in the patch is the last write of that key, and the patch lists every written key once, in bytewise key order *)
+Theorem C02_patch_is_final_overlay_in_key_order :
+  forall ops, (forall k, ov_get (changes ops) k = last_write ops k) /\ ksorted (changes ops).
+Proof. intros ops. split; [intros k; apply changes_get | apply changes_sorted]. Qed.
+
 (* For every chain produced by an honest producer and any two delivery schedules of it WITHOUT variant gossip
    (batch boundaries, overlaps, re-deliveries, unlinkable batches, gossip of genuine account blocks before or after,
    restarts anywhere): the store is the producer's own state at the reached height; nodes that got equally far hold
